@@ -7,7 +7,7 @@
 //! store is dropped without any further write and the directory is reopened. RocksDB writes go to
 //! the WAL at `write()` time, so dropping the handle exercises the same write boundaries as a
 //! killed process (process crash, not power loss).
-use crate::p_raftsm::{entries_words, lid, mk_lid, mk_vote, rt, AnyStore, Ent, Gen, Scratch, SnapReg};
+use crate::p_raftsm::{entries_words, lid, mk_lid, next_vote, rt, AnyStore, Ent, Gen, Scratch, SnapReg};
 use crate::util::{catch, Ctx};
 use crate::p_raftsm::with_store;
 use openraft::storage::RaftStorage;
@@ -62,7 +62,7 @@ fn leader_snapshot(rt: &tokio::runtime::Runtime, g: &[Ent], o: Option<u64>) -> S
 }
 
 /// generate a well-formed history (openraft's calling discipline) by bookkeeping only
-fn gen_history(ctx: &mut Ctx, g: &[Ent], steps: u64) -> Vec<Op> {
+fn gen_history(ctx: &mut Ctx, g: &[Ent], steps: u64, votes_only: bool) -> Vec<Op> {
     let gmap: BTreeMap<u64, Ent> = g.iter().map(|e| (e.log_id.index, e.clone())).collect();
     let first = g.first().map(|e| e.log_id.index).unwrap_or(0);
     let glast = g.last().map(|e| e.log_id.index).unwrap_or(0);
@@ -72,6 +72,7 @@ fn gen_history(ctx: &mut Ctx, g: &[Ent], steps: u64) -> Vec<Op> {
     let mut has_snap = false;
     let mut purged: Option<u64> = None;
     let mut building: Option<Option<u64>> = None; // a captured builder and the position it captured
+    let mut last_vote: Option<(u64, u64, bool)> = None;
     let mut ops = Vec::new();
     let same = |a: &Ent, b: &Ent| entries_words(std::slice::from_ref(a)) == entries_words(std::slice::from_ref(b));
     for _ in 0..steps {
@@ -79,7 +80,9 @@ fn gen_history(ctx: &mut Ctx, g: &[Ent], steps: u64) -> Vec<Op> {
         let next = local.keys().next_back().map(|k| k + 1).unwrap_or(first)
             .max(applied.map_or(first, |a| a + 1))
             .max(purged.map_or(first, |p| p + 1));
-        match ctx.rng.below(15) {
+        // vote-centred histories: votes, with an occasional append/apply in between
+        let pick = if votes_only { *ctx.rng.pick(&[0u64, 4, 14, 14, 14, 14]) } else { ctx.rng.below(16) };
+        match pick {
             0 | 1 | 2 | 3 => {
                 // append committed entries, sometimes an uncommitted (conflicting) tail
                 if next > glast + 2 { continue; }
@@ -178,17 +181,36 @@ fn gen_history(ctx: &mut Ctx, g: &[Ent], steps: u64) -> Vec<Op> {
                 ops.push(Op::Trunc(id));
                 local.retain(|k, _| *k < since);
             }
-            _ => ops.push(Op::Vote(mk_vote(ctx.rng.below(6), 1 + ctx.rng.below(3), ctx.rng.chance(1, 2)))),
+            _ => {
+                // a short run of related votes (same leader id with the committed flag flipping, re-saves, new terms)
+                let k = if votes_only { 1 + ctx.rng.below(2) } else { 1 + ctx.rng.below(3) };
+                for _ in 0..k {
+                    let (v, kind) = next_vote(&mut ctx.rng, &mut last_vote);
+                    ctx.count(&format!("vote:{}", kind));
+                    ops.push(Op::Vote(v));
+                }
+            }
         }
     }
     ops
 }
 
 /// run `ops` on the store at `path`; stops at the first panic (the armed crash point). Returns Ok(()) or the panic text.
-fn run_ops(rt: &tokio::runtime::Runtime, st: &mut AnyStore, g: &[Ent], ops: &[Op]) -> Result<(), String> {
+/// bookkeeping of what the implementation acknowledged: the last vote `save_vote` returned `Ok` for,
+/// and (when asked) `read_vote` right after every acknowledged `save_vote`
+#[derive(Default)]
+struct Acks {
+    vote: Option<Vote<NodeId>>,
+    reads: Option<Vec<(usize, String)>>,
+}
+fn vote_str(v: &Option<Vote<NodeId>>) -> String {
+    match v { None => "-".into(), Some(v) => format!("{}.{}.{}", v.leader_id.term, v.leader_id.node_id, if v.committed { 1 } else { 0 }) }
+}
+
+fn run_ops(rt: &tokio::runtime::Runtime, st: &mut AnyStore, g: &[Ent], ops: &[Op], acks: &mut Acks) -> Result<(), String> {
     // the captured snapshot builder (holds a handle to the same RocksDB); dropped when this returns
     let mut builder: Option<RocksSnapshotBuilder> = None;
-    for op in ops {
+    for (i, op) in ops.iter().enumerate() {
         match op {
             Op::Begin => {
                 let AnyStore::Rocks(s, _) = &mut *st else { unreachable!() };
@@ -237,7 +259,15 @@ fn run_ops(rt: &tokio::runtime::Runtime, st: &mut AnyStore, g: &[Ent], ops: &[Op
         match r {
             Err(p) => return Err(p),
             Ok(Err(e)) => panic!("storage error in harness history: {}", e),
-            Ok(Ok(())) => {}
+            Ok(Ok(())) => {
+                if let Op::Vote(v) = op {
+                    acks.vote = Some(*v);
+                    if acks.reads.is_some() {
+                        let r = st.vote_print(rt);
+                        acks.reads.as_mut().unwrap().push((i, r));
+                    }
+                }
+            }
         }
     }
     Ok(())
@@ -250,10 +280,11 @@ fn dump_log_half(rt: &tokio::runtime::Runtime, st: &mut AnyStore) -> String {
     format!("vote={} {}", st.vote_print(rt), st.log_line(rt))
 }
 
-fn scenario(ctx: &mut Ctx, scratch: &mut Scratch, len: u64, steps: u64, all_points: bool) {
+fn scenario(ctx: &mut Ctx, scratch: &mut Scratch, len: u64, steps: u64, all_points: bool, votes_only: bool) {
     let first = 1 + ctx.rng.below(2);
     let g = Gen::log(&mut ctx.rng, first, len);
-    let ops = gen_history(ctx, &g, steps);
+    let ops = gen_history(ctx, &g, steps, votes_only);
+    if votes_only { ctx.count("history:vote_centred"); }
     for op in &ops { ctx.count(&format!("op:{}", op_kind(op))); }
     let has_compaction = ops.iter().any(|o| matches!(o, Op::Purge(_)));
     let has_install = ops.iter().any(|o| matches!(o, Op::Install(_)));
@@ -267,15 +298,18 @@ fn scenario(ctx: &mut Ctx, scratch: &mut Scratch, len: u64, steps: u64, all_poin
     let p0 = scratch.fresh();
     verif::arm(None);
     let mut st = AnyStore::rocks(&p0);
-    run_ops(&rt0, &mut st, &g, &ops).expect("uncrashed run panicked");
+    let mut acks = Acks { vote: None, reads: Some(Vec::new()) };
+    run_ops(&rt0, &mut st, &g, &ops, &mut acks).expect("uncrashed run panicked");
     let total = verif::writes();
     let live = dump(&rt0, &mut st);
     drop(st);
+    // read_vote right after every save_vote of the uncrashed run
+    for (i, r) in acks.reads.take().unwrap() { ctx.case(&format!("rv {}", i), &r); }
     let mut re = AnyStore::rocks(&p0);
     let after = dump(&rt0, &mut re);
     drop(re);
     scratch.remove(&p0);
-    ctx.case(&format!("restart {}", total), &format!("{} persist={}", after, if live == after { "same" } else { "changed" }));
+    ctx.case(&format!("restart {}", total), &format!("{} persist={} acked={}", after, if live == after { "same" } else { "changed" }, vote_str(&acks.vote)));
     ctx.count_n("writes", total);
     // crash points
     let points: Vec<u64> = if all_points { (0..=total).collect() } else {
@@ -287,7 +321,8 @@ fn scenario(ctx: &mut Ctx, scratch: &mut Scratch, len: u64, steps: u64, all_poin
         let rt1 = rt();
         verif::arm(Some(n));
         let mut st = AnyStore::rocks(&p);
-        let r = run_ops(&rt1, &mut st, &g, &ops);
+        let mut acks = Acks::default();
+        let r = run_ops(&rt1, &mut st, &g, &ops, &mut acks);
         verif::arm(None);
         let crashed = r.is_err();
         if let Err(msg) = &r {
@@ -302,7 +337,7 @@ fn scenario(ctx: &mut Ctx, scratch: &mut Scratch, len: u64, steps: u64, all_poin
         let persist = if after.starts_with(&live_log) { "same" } else { "changed" };
         drop(re);
         scratch.remove(&p);
-        ctx.case(&format!("crash {}", n), &format!("{} persist={}", after, persist));
+        ctx.case(&format!("crash {}", n), &format!("{} persist={} acked={}", after, persist, vote_str(&acks.vote)));
         ctx.count(if crashed { "crash:mid_history" } else { "crash:after_last_write" });
         if crashed && has_compaction { ctx.count("crash:in_history_with_purge"); }
     }
@@ -311,12 +346,17 @@ fn scenario(ctx: &mut Ctx, scratch: &mut Scratch, len: u64, steps: u64, all_poin
 pub fn run(ctx: &mut Ctx, _name: &str) {
     std::panic::set_hook(Box::new(|_| {}));
     let mut scratch = Scratch::new();
-    let n = if ctx.thorough { 160 } else { 12 };
+    let n = if ctx.thorough { 160 } else { 40 };
     for i in 0..n {
         let len = 2 + ctx.rng.below(if ctx.thorough { 14 } else { 8 });
         let steps = 6 + ctx.rng.below(if ctx.thorough { 22 } else { 12 });
-        let all = ctx.thorough || i % 4 == 0;
-        scenario(ctx, &mut scratch, len, steps, all);
+        let all = ctx.thorough || i % 2 == 0;
+        scenario(ctx, &mut scratch, len, steps, all, false);
+        // a vote-centred history after every second general one (short, every write boundary)
+        if i % 2 == 0 {
+            let vsteps = 2 + ctx.rng.below(3);
+            scenario(ctx, &mut scratch, 2, vsteps, true, true);
+        }
     }
     let _ = std::panic::take_hook();
 }
